@@ -232,10 +232,10 @@ def stepC (fs : List String) (ca : Option Nat) : String :=
     match parseArrival hot, parseArrival cold, off.toNat?, sz.toNat?, bool? rev, hint.toNat?,
       natList? order, parseBehav behav with
     | some h, some c, some off, some sz, some rev, some hint, some order, some b =>
-      match api (searchAndFetchC h c off sz rev hint true order (behavFn b) ca) with
+      match overWire (api (searchAndFetchC h c off sz rev hint true order (behavFn b) ca)) with
       | .status ia => if ia then "err invalid-argument" else "err internal"
       | .refused => "ok refused tmf"
-      | .panic => "err internal"
+      | .panic => "panic"
       | .resp ids docs p t => s!"ok partial={fmtBool p} total={toInt64 t} ids={fmtIDs ids} docs={fmtNats docs}"
     | _, _, _, _, _, _, _, _ => "bad-op"
   | ["fetchapi", ids, srcs, order, behav] =>
